@@ -22,16 +22,34 @@ RULE = ("lists of 1..8 features, start-ordered inside each seqid block, consecut
         "touching, overlapping, nested, identical, seqid change with and without room in between} x strands {+,-,.} mixed or "
         "uniform x attribute sets sharing keys with equal / different / numeric / multiple values x new_featuretype x "
         "merge_attributes x numeric_sort x update_attributes, fed as Feature objects and as features read from GFF3 and GTF "
-        "databases; gene models of 1..3 genes x 1..3 transcripts x 1..6 exons (distinct starts per transcript; + CDS) on "
-        "+/-/. in GFF3 (exon strands may differ from the transcript) and GTF, grouped by grandparent or parent type; "
+        "databases; numeric IDs include pairs whose numeric and text orders disagree (9/10, 2/10, 99/100); lists whose "
+        "consecutive neighbours carry exactly equal attribute dictionaries with unsorted and / or repeated multi-valued "
+        "attributes (objects; GFF3 / GTF databases without ID attributes); gene models of 1..3 genes x 1..3 transcripts x "
+        "1..6 exons (distinct starts per transcript; + CDS) on +/-/. in GFF3 (exons all on the other strand, all '.', or "
+        "randomly stranded under the transcript in about a third of the GFF3 transcripts) and GTF, a quarter of the "
+        "transcripts with a long exon that strictly contains later exons, grouped by grandparent or parent type; every "
+        "create_splice_sites case is also cross-checked against the introns create_introns yields on the same database; "
         "non-trivial = at least one gap and at least one suppressed pair (touching / overlapping / seqid change) in the "
         "list or in one transcript; distinct = distinct (records, options) tuples")
 REQUIRED = ["interfeatures calls", "gap features compared", "suppressed pairs: touching", "suppressed pairs: overlapping",
             "suppressed pairs: seqid change", "one-base gaps compared", "attribute unions compared", "ID values joined",
             "numeric orderings compared", "input str() comparisons", "database dumps compared", "create_introns calls",
             "introns compared", "create_splice_sites calls", "splice sites compared",
-            "splice sites of minus-strand transcripts compared"]
-REQUIRED_CLASSES = ["list/objects", "list/db gff3", "list/db gtf", "introns/gff3", "introns/gtf", "splice/gff3", "splice/gtf"]
+            "splice sites of minus-strand transcripts compared",
+            "equal attribute dictionaries with unsorted values: unions compared",
+            "equal attribute dictionaries with repeated values: unions compared",
+            "equal attribute dictionaries with unsorted or repeated values: unions compared (features read from a database)",
+            "numeric IDs in disagreeing numeric / text order joined: numeric_sort on",
+            "numeric IDs in disagreeing numeric / text order joined: numeric_sort off",
+            "splice sites compared whose strand differs from a +/- transcript's strand",
+            "splice sites compared: '.' exons under a +/- transcript",
+            "splice sites compared: exons on the opposite strand of a +/- transcript",
+            "introns compared whose strand differs from the transcript's strand",
+            "introns compared: both neighbours strictly nested inside an earlier exon",
+            "splice sites compared: both neighbours strictly nested inside an earlier exon",
+            "splice sites cross-checked against the ends of the introns create_introns yields"]
+REQUIRED_CLASSES = ["list/objects", "list/db gff3", "list/db gtf", "introns/gff3", "introns/gtf", "splice/gff3", "splice/gtf",
+                    "list/objects equal attributes", "list/db gff3 equal attributes", "list/db gtf equal attributes"]
 ASSUMPTIONS = [
     "'at least one base between them' = next.start - previous.end >= 2; lists are start-ordered inside a block of one seqid "
     "(the statement speaks of features given in order), exon starts are distinct inside a transcript",
@@ -212,19 +230,34 @@ def execute_list(ctx, case):
             except Exception as ex:
                 ctx.violation(case, {"why": "harness: building the input database raised %r" % (ex,)})
                 return info
-            try:
-                by_id = {f.attributes["ID"][0]: f for f in stored}
-                feats = [by_id[r_id(r)] for r in recs]   # the order the records were written in
-            except KeyError:
-                ctx.violation(case, {"why": "harness: a stored feature cannot be mapped to its record"})
-                return info
-            if len(stored) != len(recs) or len(by_id) != len(recs):
-                ctx.violation(case, {"why": "harness: %d features stored for %d records" % (len(stored), len(recs))})
-                return info
+            if case.get("by_order"):
+                # records without ID attributes: the stored features are taken in insertion (= file) order and must
+                # agree with their records column by column
+                try:
+                    ids = [row[0] for row in db.execute("SELECT id FROM features ORDER BY rowid")]
+                    feats = [db[i] for i in ids]
+                except Exception as ex:
+                    ctx.violation(case, {"why": "harness: reading the stored features back raised %r" % (ex,)})
+                    return info
+                if len(feats) != len(recs) or any(geometry(f) != {k: r[k] for k in ("seqid", "start", "end", "featuretype", "strand")}
+                                                  for f, r in zip(feats, recs)):
+                    ctx.violation(case, {"why": "harness: a stored feature cannot be mapped to its record"})
+                    return info
+            else:
+                try:
+                    by_id = {f.attributes["ID"][0]: f for f in stored}
+                    feats = [by_id[r_id(r)] for r in recs]   # the order the records were written in
+                except KeyError:
+                    ctx.violation(case, {"why": "harness: a stored feature cannot be mapped to its record"})
+                    return info
+                if len(stored) != len(recs) or len(by_id) != len(recs):
+                    ctx.violation(case, {"why": "harness: %d features stored for %d records" % (len(stored), len(recs))})
+                    return info
             model_in = [to_model(r) for r in recs]
         exp, suppressed = M.gaps(model_in, new_featuretype=opts["new_featuretype"], merge_attributes=opts["merge_attributes"],
                                  numeric_sort=opts["numeric_sort"], update_attributes=opts["update_attributes"])
         info = {"gaps": len(exp), "suppressed": sum(suppressed.values())}
+        real_attrs = [attrs_of(f) for f in feats]    # what the real neighbours carry (evidence counters only)
         w = Watch(ctx, db, feats)
         upd = None if opts["update_attributes"] is None else {k: list(v) for k, v in opts["update_attributes"].items()}
         try:
@@ -248,6 +281,7 @@ def execute_list(ctx, case):
                 ctx.violation(case, {"why": "interfeatures: " + why, "index": i, "got": short(f), "expected": g})
                 return info
             count_attr_evidence(ctx, g, model_in, opts)
+            count_pair_evidence(ctx, g, real_attrs, opts, from_db=source != "objects")
         bad = w.finish()
         if bad:
             ctx.violation(case, dict(bad[1], why="interfeatures: " + bad[0]))
@@ -277,6 +311,30 @@ def count_attr_evidence(ctx, g, model_in, opts):
             if len(v) > 1 and all(M.is_number(x) for x in v) and v != sorted(v):
                 ctx.mon("numeric orderings compared")
                 break
+
+
+def count_pair_evidence(ctx, g, attrs, opts, from_db=False):
+    """Which of the input classes the compared gap belongs to; attrs[i] = attribute dict of the i-th neighbour."""
+    if g.get("attrs") is None:
+        return
+    a, b = attrs[g["pair"][0]], attrs[g["pair"][1]]
+    if a == b:
+        ctx.mon("equal attribute dictionaries: unions compared")
+        multi = [v for v in a.values() if len(v) > 1]
+        unsorted_ = any(M.sorted_union(sorted(set(v)), (), opts["numeric_sort"]) != [x for i, x in enumerate(v) if x not in v[:i]]
+                        for v in multi)
+        repeated = any(len(set(v)) < len(v) for v in multi)
+        if unsorted_:
+            ctx.mon("equal attribute dictionaries with unsorted values: unions compared")
+        if repeated:
+            ctx.mon("equal attribute dictionaries with repeated values: unions compared")
+        if from_db and (unsorted_ or repeated):
+            ctx.mon("equal attribute dictionaries with unsorted or repeated values: unions compared (features read from a database)")
+    if not (opts.get("update_attributes") or {}).get("ID"):
+        x, y = a.get("ID", []), b.get("ID", [])
+        if len(x) == 1 and len(y) == 1 and x != y and M.is_number(x[0]) and M.is_number(y[0]) and float(x[0]) != float(y[0]):
+            if (float(x[0]) < float(y[0])) != (x[0] < y[0]):
+                ctx.mon("numeric IDs in disagreeing numeric / text order joined: numeric_sort %s" % ("on" if opts["numeric_sort"] else "off"))
 
 
 def short(f):
@@ -337,19 +395,25 @@ def execute_model(ctx, case):
     try:
         txs = transcripts_of(recs, fmt, opts)
         expected = []
+        expected_introns = []      # splice: the introns of the same transcripts, for the cross-check with create_introns
         for tid, tstrand, exons in txs:
             starts = [e["start"] for e in exons]
             if len(set(starts)) != len(starts):
                 raise AssertionError("harness: equal exon starts generated")
             ex_model = [to_model(e) for e in exons]
+            ordered = M.start_ordered(ex_model)
             if call == "introns":
                 exp, sup = M.introns(ex_model, new_featuretype=opts["new_featuretype"], merge_attributes=opts["merge_attributes"],
                                      numeric_sort=opts["numeric_sort"])
                 count_expectations(ctx, exp, sup)
+                for g in exp:
+                    count_pair_evidence(ctx, g, [e["attrs"] for e in ordered], opts)
             else:
                 exp, sup = M.splice_sites(ex_model, tstrand, numeric_sort=opts["numeric_sort"])
                 for k, n in sup.items():
                     ctx.mon("suppressed pairs: " + k, n)
+                expected_introns.extend(M.introns(ex_model, new_featuretype="intron", numeric_sort=opts["numeric_sort"])[0])
+            count_model_evidence(ctx, call, exp, ordered, tstrand)
             expected.extend(exp)
             info["gaps"] += len(exp) if call == "introns" else len(exp) // 2
             info["suppressed"] += sum(sup.values())
@@ -405,6 +469,27 @@ def execute_model(ctx, case):
             ctx.violation(case, {"why": why, "expected_not_yielded": missing, "yielded_not_expected": extra,
                                  "n_got": len(out), "n_expected": len(expected), "text": text})
             return info
+        if call == "splice":
+            # "the two-base sites of each such intron": the sites must be the two ends of exactly the introns the real
+            # create_introns yields on this database under the same grouping (labels aside)
+            try:
+                real_introns = list(db.create_introns(new_featuretype="intron", **kw))
+            except Exception as ex:
+                ctx.violation(case, {"why": "create_introns raised %s" % type(ex).__name__, "error": repr(ex), "text": text})
+                return info
+            ends_real = Counter(t for f in real_introns for t in M.site_pair(geometry(f)))
+            ends_model = Counter(t for g in expected_introns for t in M.site_pair(g))
+            sites = Counter((f.seqid, f.start, f.end, f.strand) for f in out)
+            ctx.mon("splice sites cross-checked against the ends of the introns create_introns yields", sum(sites.values()))
+            if ends_real != ends_model:
+                ctx.violation(case, {"why": "create_introns (cross-check of a splice-site case) differs from the model",
+                                     "n_got": len(real_introns), "n_expected": len(expected_introns), "text": text})
+                return info
+            if sites != ends_real:
+                ctx.violation(case, {"why": "create_splice_sites: sites are not the two-base ends of the introns create_introns yields",
+                                     "sites_not_intron_ends": [list(k) for k in (sites - ends_real)][:4],
+                                     "intron_ends_without_site": [list(k) for k in (ends_real - sites)][:4], "text": text})
+                return info
         bad = w.finish()
         if bad:
             ctx.violation(case, dict(bad[1], why="%s: %s" % (name, bad[0]), text=text))
@@ -413,14 +498,58 @@ def execute_model(ctx, case):
     return info
 
 
+def count_model_evidence(ctx, call, exp, ordered, tstrand):
+    """Input classes of one transcript's expectations (exp = introns, or two sites per intron)."""
+    what = "introns" if call == "introns" else "splice sites"
+    for g in exp:
+        i, j = g["pair"]
+        left, right = ordered[i], ordered[j]
+        if any(k["start"] < left["start"] and k["end"] > right["end"] for k in ordered[:i]):
+            ctx.mon("%s compared: both neighbours strictly nested inside an earlier exon" % what)
+        if call == "introns":
+            if g["strand"] != tstrand:
+                ctx.mon("introns compared whose strand differs from the transcript's strand")
+            continue
+        if tstrand in ("+", "-"):
+            if g["strand"] != tstrand:
+                ctx.mon("splice sites compared whose strand differs from a +/- transcript's strand")
+            if left["strand"] == right["strand"] == ".":
+                ctx.mon("splice sites compared: '.' exons under a +/- transcript")
+            elif left["strand"] == right["strand"] != tstrand:
+                ctx.mon("splice sites compared: exons on the opposite strand of a +/- transcript")
+        elif g["strand"] in ("+", "-"):
+            ctx.mon("splice sites compared: stranded exons under an unstranded transcript")
+
+
 # -- workload -------------------------------------------------------------------------------------------------------------
 def run(ctx):
     rng = ctx.rng
-    for _ in range(ctx.budget(20000, 480000)):
+    for _ in range(ctx.budget(16000, 440000)):
         case = {"kind": "list", "source": "objects", "feats": G.feature_list(rng), "opts": G.list_options(rng)}
         info = execute(ctx, case)
         nt = info["gaps"] >= 1 and info["suppressed"] >= 1
         ctx.case((case["feats"], case["opts"]), nt, sample=case if len(case["feats"]) <= 4 else None, cls="list/objects")
+    # neighbours with exactly equal attribute dictionaries whose multi-valued attributes are unsorted / repeated
+    for _ in range(ctx.budget(2400, 48000)):
+        opts = G.list_options(rng)
+        opts["merge_attributes"] = True
+        if opts["update_attributes"] is not None and rng.random() < 0.6:
+            opts["update_attributes"] = None
+        case = {"kind": "list", "source": "objects", "feats": G.equal_attrs_list(rng, with_ids=True), "opts": opts}
+        info = execute(ctx, case)
+        ctx.case((case["feats"], case["opts"]), info["gaps"] >= 1, sample=case if len(case["feats"]) <= 2 else None,
+                 cls="list/objects equal attributes")
+    for _ in range(ctx.budget(500, 10000)):
+        fmt = rng.choice(["gff3", "gtf"])
+        feats = G.equal_attrs_list(rng, with_ids=False)
+        if fmt == "gtf":
+            for r in feats:
+                r["attrs"] = [["gene_id", ["g"]], ["transcript_id", ["t"]]] + [kv for kv in r["attrs"]]
+        opts = G.list_options(rng)
+        opts["merge_attributes"] = True
+        case = {"kind": "list", "source": fmt, "feats": feats, "opts": opts, "by_order": True, "dbfile": rng.random() < 0.2}
+        info = execute(ctx, case)
+        ctx.case((fmt, case["feats"], case["opts"]), info["gaps"] >= 1, cls="list/db %s equal attributes" % fmt)
     for _ in range(ctx.budget(2400, 48000)):
         fmt = rng.choice(["gff3", "gtf"])
         feats = G.feature_list(rng, unique_ids=True)
